@@ -87,8 +87,6 @@ Record rstate : Type := {
   r_pushed : list N;
   r_holes : list N;
   r_upd : list (N * N);
-  r_updroot : bool;          (* the `updated` BTreeMap has an allocated root (an entry was inserted since the
-                                last take/clear): only then does BTreeMap::range check start <= end *)
 }.
 
 Definition region_len (c : rstate) : N := HEADER_OFFSET + len (r_disk c) * r_sz c.
@@ -116,7 +114,7 @@ Definition expected_one (c : rstate) (i : N) : option N := if i <? rlen c then v
 
 (* well-formedness of a state, checked on the real states by the engine *)
 Definition wf_b (c : rstate) : bool :=
-  (0 <? r_sz c)
+  (0 <? r_sz c) && (r_sz c <=? BUFFER_SIZE)
   && forallb (fun kv => fst kv <? r_stored c) (r_upd c)
   && forallb (fun i => is_hole c i || match upd_get c i with Some _ => true | None => false end)
        (seqN (len (r_disk c)) (N.to_nat (r_stored c - len (r_disk c)))).
@@ -125,8 +123,16 @@ Definition wf_b (c : rstate) : bool :=
 Definition ev_of (o : option N) : ev := match o with Some v => Yield v | None => Garb end.
 
 (* what the bytes of elements [from, to) decode to: values inside the valid data, nothing beyond *)
+Fixpoint disk_range_aux (l : list N) (n : nat) : list (option N) :=
+  match n with
+  | O => []
+  | S n' => match l with
+            | [] => None :: disk_range_aux [] n'
+            | x :: r => Some x :: disk_range_aux r n'
+            end
+  end.
 Definition disk_range (d : list N) (from to : N) : list (option N) :=
-  map Some (slice from to d) ++ repeat None (N.to_nat (to - N.max from (len d))).
+  disk_range_aux (drop from d) (N.to_nat (to - from)).
 
 Definition eoff (c : rstate) (i : N) : N := HEADER_OFFSET + i * r_sz c.
 
@@ -199,20 +205,20 @@ Fixpoint dirty_stored_evs (c : rstate) (i : N) (l : list (option N)) : stream :=
           | None => [Fetch (eoff c i) (r_sz c); ev_of o]
           end) ++ dirty_stored_evs c (i + 1) r
   end.
-Fixpoint dirty_pushed_evs (c : rstate) (i : N) (l : list N) : stream :=
+(* `for i in push_from..to { if hole {continue}; if let Some(v) = pushed.get(i - stored_len) {..} }` *)
+Fixpoint dirty_pushed_evs (c : rstate) (i : N) (l : list (option N)) : stream :=
   match l with
   | [] => []
-  | v :: r => (if is_hole c i then [] else [Yield v]) ++ dirty_pushed_evs c (i + 1) r
+  | o :: r => (if is_hole c i then [] else map Yield (opt_list o)) ++ dirty_pushed_evs c (i + 1) r
   end.
 Definition fold_dirty (c : rstate) (from to : N) : stream :=
   let stored_to := N.min to (r_stored c) in
   if to <? from then [Boom]                       (* holes.range(from..to) *)
-  else if (stored_to <? from) && r_updroot c then [Boom]   (* updated.range(from..stored_to), mod.rs:469 *)
-  else
+  else                                            (* updated.range(from.min(stored_to)..stored_to): never start > end *)
     dirty_stored_evs c from (disk_range (r_disk c) from stored_to)
     ++ (let push_from := N.max from (r_stored c) in
         if push_from <? to
-        then dirty_pushed_evs c push_from (slice (push_from - r_stored c) (to - r_stored c) (r_pushed c))
+        then dirty_pushed_evs c push_from (disk_range (r_pushed c) (push_from - r_stored c) (to - r_stored c))
         else []).
 
 (* ReadableVec::read_into_at for ReadWriteRawVec, readable.rs:30 *)
@@ -272,8 +278,14 @@ Definition holed_range (c : rstate) (from to : N) : list stream :=
 (* VecReader::{get, try_get}, sources/reader.rs:62,75 — stored values only, by documentation *)
 Definition vr_get (c : rstate) (i : N) : stream := if i <? r_stored c then read_elem c i else [Boom].
 Definition vr_try_get (c : rstate) (i : N) : stream := if i <? r_stored c then read_elem c i else [].
-(* read_at / read_at_once, mod.rs:220: the bound is len (pushed included), the read is from the map *)
-Definition read_at_once (c : rstate) (i : N) : stream := if i <? rlen c then read_elem c i else [].
+(* read_at / read_at_once, mod.rs:220: the bound is len; a buffered index is served from the pushed
+   buffer (`pushed()[index - stored_len]`, an indexing expression), a stored one from the map *)
+Definition read_at_once (c : rstate) (i : N) : stream :=
+  if i <? rlen c then
+    if r_stored c <=? i
+    then match nth_n (r_pushed c) (i - r_stored c) with Some v => [Yield v] | None => [Boom] end
+    else read_elem c i
+  else [].
 (* get_pushed_or_read_at, mod.rs:249 *)
 Definition get_pushed_or_read (c : rstate) (i : N) : stream :=
   if r_stored c <=? i then map Yield (opt_list (nth_n (r_pushed c) (i - r_stored c))) else vr_get c i.
@@ -317,4 +329,4 @@ Definition ro_get (c : rstate) (i : N) : stream := vr_get c i.
 (* what a lean clone can be expected to show: the stored part of the logical contents *)
 Definition stored_only (c : rstate) : rstate :=
   {| r_sz := r_sz c; r_native := r_native c; r_xo := r_xo c; r_disk := r_disk c; r_stored := r_stored c;
-     r_pushed := []; r_holes := r_holes c; r_upd := r_upd c; r_updroot := r_updroot c |}.
+     r_pushed := []; r_holes := r_holes c; r_upd := r_upd c |}.
